@@ -1,5 +1,6 @@
 pub mod mock;
 pub mod closepoll;
+pub mod massreg;
 pub mod direct;
 pub mod ps;
 pub mod rr;
